@@ -133,7 +133,7 @@ ALTS = {
     "bar": [("width", [3, 30]), ("end", [10, 2])],
     "pbar": [("width", [3, 30]), ("pulse", [True]), ("completed", [10, 0, 20]), ("total", [0])],
     "nomeasure": [], "cast": [],
-    "panel": [("title", ["ti", "あ t", "a long title"]), ("expand", [False]), ("width", [5, 12, 50, 3]),
+    "panel": [("title", ["ti", "あ t", "a long title", {"text": "ti", "justify": "right"}, {"text": "a long title", "justify": "left"}]), ("expand", [False]), ("width", [5, 12, 50, 3]),
               ("padding", [0, [1, 2], [0, 0, 0, 3]]), ("box", ["ASCII", "DOUBLE"]),
               ("title_align", ["left", "right"])],
     "padding": [("pad", [[0, 2], [1, 0, 1, 3], 0]), ("expand", [False])],
@@ -311,9 +311,9 @@ def _targ(v, bind):
     from rich.text import Text
     key = v.get("share")
     if key is None or bind is None:
-        return Text(v["text"])
+        return Text(v["text"], justify=v.get("justify"))     # a caller-owned Text title may carry its own justify
     if key not in bind:
-        bind[key] = Text(v["text"])
+        bind[key] = Text(v["text"], justify=v.get("justify"))
     return bind[key]
 
 
